@@ -137,6 +137,8 @@ impl Synchronizer {
                             }
                         };
                         let message = MempoolMessage::BatchRequest(missing, self.name);
+                        #[cfg(hotstuff_verif)]
+                        network::simnet::emit(format!("\"ev\":\"BatchRequest\",\"n\":{},\"to\":\"{}\"", match &message { MempoolMessage::BatchRequest(m, _) => m.len(), _ => 0 }, network::simnet::hex(&target.0)));
                         let serialized = bincode::serialize(&message).expect("Failed to serialize our own message");
                         self.network.send(address, Bytes::from(serialized)).await;
                     },
@@ -195,6 +197,8 @@ impl Synchronizer {
                             .map(|(_, address)| *address)
                             .collect();
                         let message = MempoolMessage::BatchRequest(retry, self.name);
+                        #[cfg(hotstuff_verif)]
+                        network::simnet::emit(format!("\"ev\":\"BatchRetry\",\"n\":{}", match &message { MempoolMessage::BatchRequest(m, _) => m.len(), _ => 0 }));
                         let serialized = bincode::serialize(&message).expect("Failed to serialize our own message");
                         self.network
                             .lucky_broadcast(addresses, Bytes::from(serialized), self.sync_retry_nodes)
